@@ -30,18 +30,6 @@ def scenarios(tier):
     sc["K_other_events"] = Scenario("K_other_events", mkcfg(
         [S(0, 3, True, False, maxNormalOrders=2, events=["fshock", "limit", "mistake"]), S(1, 2, True, True, maxNormalOrders=2)],
         agents=SC.agents(2, 1), events=evs))
-    # a halt that really happens in the middle of a step: the first batch's order trades through the halt line, the
-    # second batch then submits crossing orders to the halted market and to another market
-    from ..explore_r import bl, sl
-    menu = [[], [bl(0, 101)], [sl(0, 102)], [sl(0, 101)], [bl(0, 102)], [bl(1, 101)], [sl(1, 101)], [bl(0, 102), sl(1, 101)], [SC.CL]]
-    halt2 = {"halt": {"class": "TradingHaltRule", "targetMarkets": ["M0"], "triggerChangeRate": 0.01, "haltingTimeLength": 1}}
-    sc["N_halt_in_mid_step"] = Scenario("N_halt_in_mid_step", mkcfg(
-        [S(0, 1, True, False, maxNormalOrders=2), S(1, 4, True, True, maxNormalOrders=2, maxHighFrequencyOrders=1, events=["halt"])],
-        markets=[dict(name="M0"), dict(name="M1")],
-        agents=[dict(name="A0", menu=menu, program=[1, 3, 5, 0, 1], markets=["M0", "M1"]),
-                dict(name="A1", menu=menu, program=[2, 7, 6, 0, 2], markets=["M0", "M1"]),
-                dict(name="H0", cls="ScriptedHFAgent", menu=menu, program=[0, 4, 0], markets=["M0", "M1"])], events=halt2),
-        meta=dict(halt_targets=["M0"]))
     return sc
 
 
